@@ -351,7 +351,7 @@ int evaluate(RawServer &srv, const Case &c, vr::Report &rep, bool verbose)
   const std::string fr = ref.framing.empty() ? "undetermined" : ref.framing;
   auto viol = [&](const std::string &clause, const std::string &sig, const std::string &detail)
   {
-    rep.violation(clause, sig, c.text(), detail);
+    rep.violation(clause, "client:e2e:" + sig, c.text(), detail);
     if (verbose)
       printf("  VIOLATES clause=%s sig=%s :: %s\n", clause.c_str(), sig.c_str(), detail.c_str());
     ++bad;
